@@ -25,6 +25,9 @@ structural and decided here:
              tighter than its parent (right grouping), a right operand when it binds looser,
              ``not`` whenever it is an operand, and comparison / membership operators are
              serialised with the same rule.
+  C04-VERBATIM  a node that keeps source text (the content node's text, the liquid tag's expression
+             token) writes it back unchanged: copies, f-strings, concatenation and a strip of the
+             whole text are the only operations between the field and the returned string.
   C04-RAW    the lexer hands the text of ``raw`` blocks to the plain content node; its serialiser
              re-wraps text containing ``{{`` / ``{%`` in a raw block.
   C04-ORDER  a list field is serialised by one order-preserving traversal (no sorted / reversed /
@@ -322,9 +325,96 @@ def _check_path_shorthand(repo: Repo, res: Result, pth) -> None:
         res.add("C04-QUOTE", pth.qual, "shorthand:none", "Path.__str__: no dot-notation write of a string segment found (the rule has nothing to decide)", pth.file, pth.line)
 
 
+_STRIPS = ("strip", "lstrip", "rstrip")
+
+
+def verbatim_flow(fn: ast.AST, is_raw) -> list[tuple[ast.AST, str]]:
+    """Returns of ``fn`` in which source text (expressions for which ``is_raw`` holds) arrives
+    *transformed*.  Text may be copied through local names, f-strings without a conversion,
+    concatenation, conditional expressions and an argument-less strip of the whole text (white
+    space next to the tag delimiters is not significant); any other call, subscript or
+    comprehension applied to it on the way to the returned string counts as a transformation —
+    the text is source that is parsed again (or written out verbatim), and a string literal in it
+    may contain any character, line ends and runs of blanks included."""
+    env: dict[str, str] = {}
+
+    def has(e: ast.AST) -> bool:
+        return any(is_raw(x) or (isinstance(x, ast.Name) and x.id in env) for x in ast.walk(e))
+
+    def worst(vals) -> str | None:
+        vals = [v for v in vals if v]
+        return "xf" if "xf" in vals else ("raw" if vals else None)
+
+    def carries(e: ast.AST) -> str | None:
+        if is_raw(e):
+            return "raw"
+        if isinstance(e, ast.Name):
+            return env.get(e.id)
+        if isinstance(e, ast.Constant):
+            return None
+        if isinstance(e, ast.JoinedStr):
+            return worst(carries(v) for v in e.values)
+        if isinstance(e, ast.FormattedValue):
+            c = carries(e.value)
+            if c and (e.conversion != -1 or e.format_spec is not None):
+                return "xf"
+            return c
+        if isinstance(e, ast.IfExp):
+            return worst([carries(e.body), carries(e.orelse)])
+        if isinstance(e, ast.BinOp) and isinstance(e.op, ast.Add):
+            return worst([carries(e.left), carries(e.right)])
+        if isinstance(e, (ast.Compare, ast.BoolOp)) and not isinstance(e, ast.BoolOp):
+            return None
+        if isinstance(e, ast.BoolOp):
+            # `x or ""`
+            return worst(carries(v) for v in e.values)
+        if isinstance(e, ast.Call) and isinstance(e.func, ast.Attribute) and e.func.attr in _STRIPS and not e.args and not e.keywords:
+            return carries(e.func.value)
+        return "xf" if has(e) else None
+
+    changed = True
+    rounds = 0
+    while changed and rounds < 6:
+        changed = False
+        rounds += 1
+        for st in walk_no_nested(fn):
+            pairs = []
+            if isinstance(st, ast.Assign) and len(st.targets) == 1 and isinstance(st.targets[0], ast.Name):
+                pairs = [(st.targets[0].id, carries(st.value))]
+            elif isinstance(st, ast.AnnAssign) and isinstance(st.target, ast.Name) and st.value is not None:
+                pairs = [(st.target.id, carries(st.value))]
+            elif isinstance(st, ast.AugAssign) and isinstance(st.target, ast.Name):
+                pairs = [(st.target.id, carries(st.value))]
+            elif isinstance(st, (ast.For, ast.AsyncFor)) and has(st.iter):
+                pairs = [(x.id, "xf") for x in ast.walk(st.target) if isinstance(x, ast.Name)]
+            elif isinstance(st, ast.Expr) and isinstance(st.value, ast.Call) and isinstance(st.value.func, ast.Attribute) and st.value.func.attr in ("append", "extend", "insert", "write") and isinstance(st.value.func.value, ast.Name):
+                vals = [carries(a) for a in st.value.args]
+                # a list / buffer the text is collected in: joined later
+                pairs = [(st.value.func.value.id, "xf" if "xf" in vals else ("raw" if "raw" in vals else None))]
+            for name, c in pairs:
+                if c and worst([env.get(name), c]) != env.get(name):
+                    env[name] = worst([env.get(name), c])
+                    changed = True
+    out = []
+    n_raw = 0
+    for st in walk_no_nested(fn):
+        if isinstance(st, ast.Return) and st.value is not None:
+            v = st.value
+            # "".join(parts): a list the text was collected in unchanged
+            if isinstance(v, ast.Call) and isinstance(v.func, ast.Attribute) and v.func.attr == "join" and isinstance(v.func.value, ast.Constant) and len(v.args) == 1 and isinstance(v.args[0], ast.Name):
+                c = env.get(v.args[0].id)
+            else:
+                c = carries(v)
+            if c:
+                n_raw += 1
+            if c == "xf":
+                out.append((st, text(v)[:80]))
+    return out, n_raw
+
+
 def run(repo: Repo) -> Result:
     res = Result(PID)
-    res.rules = ["C04-RAW", "C04-ORDER", "C04-COVER", "C04-SKEL", "C04-WORDS", "C04-QUOTE", "C04-PREC"]
+    res.rules = ["C04-RAW", "C04-ORDER", "C04-COVER", "C04-SKEL", "C04-WORDS", "C04-QUOTE", "C04-PREC", "C04-VERBATIM"]
     res.explanation = "necessary conditions of round-trip serialisation: field coverage of __str__, markup skeleton shape, reader/writer keyword agreement, quoting without escapes, bracket rule using the parser's binding powers"
     res.assumptions = ["equality of the re-parsed tree for every template is not decided (value level)"]
     reg = Registry(repo)
@@ -688,6 +778,42 @@ def run(repo: Repo) -> Result:
                     res.add("C04-RAW", cn.qual, f"raw-guard:{sorted(missing)}", f"ContentNode.__str__ re-wraps text in a raw block only when `{text(t)[:80]}`; it must do so whenever the text contains `{{{{` or `{{%` (missing: {sorted(missing)})", m.file, wrapped.lineno)
     elif raw_kind is None:
         raise AnchorMissing("liquid.lex._tokenize_template: the RAW branch no longer assigns `kind`; re-derive C04-RAW")
+
+    # ---- C04-VERBATIM: source text kept by a node is written back unchanged --------------------------
+    # The content node renders ``self.text`` as is, and the liquid tag's node keeps the *source* of
+    # its statements (the value of its expression token) and writes that back instead of
+    # serialising its block.  Either text must arrive in the serialised template unchanged.
+    n_verb = 0
+    for q, (c, _tag) in sorted(node_classes.items()):
+        m = c.methods.get("__str__")
+        if m is None:
+            continue
+        rend = c.methods.get("render_to_output")
+        written = set()
+        if rend is not None:
+            for call in calls(rend.node, nested=False):
+                if callee_name(call) == "write" and call.args:
+                    ch = attr_chain(call.args[0])
+                    if ch and ch[0] == "self" and len(ch) == 2:
+                        written.add(ch[1])
+
+        def is_raw(e, written=written):
+            ch = attr_chain(e) if isinstance(e, ast.Attribute) else None
+            if not ch or ch[0] != "self":
+                return False
+            if len(ch) == 2 and ch[1] in written:
+                return True  # the field render writes out as is
+            return len(ch) == 3 and ch[2] == "value" and ch[1].endswith("token")  # source text of a kept token
+
+        if not any(is_raw(x) for x in ast.walk(m.node)):
+            continue
+        bad, n_raw = verbatim_flow(m.node, is_raw)
+        n_verb += 1
+        res.ob(f"verbatim:{q}", 1 + n_raw)
+        for st, frag in bad:
+            res.add("C04-VERBATIM", q, "transformed", f"{c.name}.__str__ writes back source text it kept (the text render writes out, or the value of a kept token) after transforming it (`{frag}`): a string literal in that text may contain line ends and blanks, so the serialised template no longer parses to the same template", m.file, st.lineno)
+    if n_verb < 2:
+        raise AnchorMissing(f"C04-VERBATIM: only {n_verb} serialisers that write back kept source text found (content node and liquid tag node expected)")
 
     # ---- C04-ORDER: sequences are written in the order they are rendered ---------------------------
     # A list field that render/evaluate walks in order (case/when blocks, elsif alternatives, filters,
